@@ -28,7 +28,7 @@ func TestRegress(t *testing.T) { harness.RunRegress(t) }
 const kfFC17 = "fc17-tcp-truncated-reply-parsed"
 
 // Fault kinds.
-var faults = []string{"stall", "eof", "eof-with-bytes", "ioerr", "ioerr-with-bytes", "oversize", "write", "cancel-before", "cancel-in-read", "not-connected", "nil-request"}
+var faults = []string{"stall", "eof", "eof-with-bytes", "ioerr", "ioerr-with-bytes", "oversize", "write", "cancel-before", "cancel-in-read", "deadline-before", "deadline-in-stall", "not-connected", "nil-request"}
 
 type faultCase struct {
 	Kind    string   `json:"kind"`
@@ -105,6 +105,14 @@ func prepare(c faultCase) (prep, error) {
 		p.faultIdx = len(ev)
 		ev = append(ev, xport.Event{Kind: "cancel"})
 		sc.ReadTimeoutMs = 2000
+	case "deadline-before":
+		sc.DeadlineMs = -1
+		sc.ReadTimeoutMs = 2000
+	case "deadline-in-stall":
+		// the transport stalls; the caller's deadline (5 ms) ends long before the client's own read timeout (3 s)
+		p.faultIdx = len(ev)
+		sc.DeadlineMs = 5
+		sc.ReadTimeoutMs = 3000
 	case "not-connected":
 		sc.NotConnected = true
 	case "nil-request":
@@ -196,6 +204,13 @@ func judge(c faultCase, p prep, o cli.Outcome) harness.Result {
 		if o.Elapsed > 1500*time.Millisecond {
 			return harness.Fail(desc+"cancelled call took %v", o.Elapsed)
 		}
+	case "deadline-before", "deadline-in-stall":
+		if !errors.Is(o.Err, context.DeadlineExceeded) {
+			return harness.Fail(desc+"expiry of the caller's context deadline not reported as the context's error: %T %v", o.Err, o.Err)
+		}
+		if o.Elapsed > 2500*time.Millisecond {
+			return harness.Fail(desc+"call with an expired context deadline took %v", o.Elapsed)
+		}
 	case "not-connected":
 		if len(o.Writes) != 0 || len(o.Reads) != 0 {
 			return harness.Fail(desc+"unconnected client touched a transport")
@@ -214,7 +229,7 @@ func judge(c faultCase, p prep, o cli.Outcome) harness.Result {
 			return harness.Fail(desc+"did not fail immediately (%v)", o.Elapsed)
 		}
 	}
-	return harness.Result{NonTrivial: inside || c.Fault == "cancel-in-read", Labels: labels}
+	return harness.Result{NonTrivial: inside || c.Fault == "cancel-in-read" || c.Fault == "deadline-in-stall", Labels: labels}
 }
 
 func respBytes(o cli.Outcome) []byte {
@@ -379,7 +394,7 @@ func TestPrefixSweep(t *testing.T) {
 					for _, fault := range faults {
 						prefixes := []int{0}
 						switch fault {
-						case "write", "cancel-before", "not-connected", "nil-request":
+						case "write", "cancel-before", "deadline-before", "not-connected", "nil-request":
 						default:
 							prefixes = nil
 							for p := 0; p < L; p += stride {
